@@ -219,6 +219,18 @@ class Canon:
             sort = self.range_sort(b[3]) if b is not None else None
             self.arr_letter[a] = ({'project_closures': 'c', 'abs_lec_diff': 'd', 'lec_overload': 'ov', 'lec_underload': 'un'}.get(a, 'v_' + a), sort)
 
+    def off_by_some(self, attr):
+        """the variable array `attr` is declared in a loop over range(count +- c), c != 0: a recognisably wrong number"""
+        b = self.var_arrays.get(attr, (None, None))[1]
+        if b is None:
+            return None
+        dom = b[3]
+        if dom[0] == 'call' and dom[1] == S('range') and len(dom[2]) == 1:
+            x = dom[2][0]
+            if x[0] == 'bin' and x[1] in ('Add', 'Sub') and is_num(x[3]) and x[3][1] != 0 and self.size_sort(x[2]) in ('S', 'P', 'L'):
+                return show(dom)
+        return None
+
     # -- domains -------------------------------------------------------------------------
     def range_sort(self, dom):
         """range(X) / range(len(Y)) -> sort letter or None."""
